@@ -43,7 +43,16 @@ func (c *PointerCodec) Write(w *WriteBuf, p unsafe.Pointer) {
 		// Outside a union there is no null branch to fall back on. Schema
 		// generation keeps pointers to slices and maps as plain arrays and
 		// maps, so a nil pointer is written as the empty collection.
-		switch c.Codec.(type) {
+		inner := c.Codec
+		for {
+			// the same holds through further levels of pointers (**[]T)
+			p, ok := inner.(*PointerCodec)
+			if !ok {
+				break
+			}
+			inner = p.Codec
+		}
+		switch inner.(type) {
 		case *arrayCodec, *MapCodec:
 			w.Varint(0)
 		}
